@@ -123,6 +123,8 @@ def c11_params(rng: random.Random, cell: Optional[dict] = None) -> dict:
     # after connecting it sends its PeerPierceFirewall message (anything within the 60 s the request waits is fine)
     p['my_listen'] = xr.choice(['both', 'both', 'both', 'both', 'obf-only', 'clear-only'])
     p['pierce_init_delay'] = xr.choice([0.0, 0.0, 0.0, 2.0, 6.0, 20.0, 45.0]) if p['indirect'] == 'pierce-fast' else 0.0
+    # the peer pierces twice with the same ticket (two connections, same instant or a few ms apart)
+    p['dup_pierce'] = xr.choice([None, None, None, None, 0.0, 0.0, 0.002]) if p['indirect'] in ('pierce-fast', 'pierce-slow') else None
     return p
 
 
@@ -222,6 +224,9 @@ def run_c11_case(res: dict, params: dict, seed: Any, judge_c10: bool = False, ju
                     link.send(PeerPierceFirewall.Request(msg.ticket))
                     link.typ = typ_
                     obs['late_pierce_messages'] = obs.get('late_pierce_messages', 0) + 1
+                elif p.get('dup_pierce') is not None:
+                    obs['duplicate_pierces'] = obs.get('duplicate_pierces', 0) + 1
+                    await asyncio.gather(bob.pierce(msg), bob.pierce(msg, delay=p['dup_pierce']))
                 else:
                     await bob.pierce(msg)
             elif ind == 'cannot':
